@@ -267,7 +267,7 @@ def fold(pid, prop, tier, seed, recs, infra, t0):
     slowest = 0.0
     for r in recs:
         st = r.get("tag", "") + str(r.get("s"))
-        ps = per_stratum.setdefault(st, {"cases": 0, "violations": 0, "nontrivial": 0})
+        ps = per_stratum.setdefault(st, {"cases": 0, "violations": 0, "nontrivial": 0, "fuel_max": 0, "slowest_s": 0.0})
         if "infra" in r:
             inconclusive.append({"stratum": st, "index": r.get("i"), "reason": r["infra"]})
             continue
@@ -285,6 +285,8 @@ def fold(pid, prop, tier, seed, recs, infra, t0):
         for k, v in o["modes"].items():
             modes[k] = modes.get(k, 0) + v
         fuel_max = max(fuel_max, o["fuel_max"])
+        ps["fuel_max"] = max(ps["fuel_max"], o["fuel_max"])
+        ps["slowest_s"] = max(ps["slowest_s"], r.get("t", 0))
         calls += o["calls"]
         slowest = max(slowest, r.get("t", 0))
         for reason in o["inconclusive"]:
